@@ -22,4 +22,4 @@ for pid in pids:
     res[pid] = {'rc': r.returncode, 'first': [l[:300] for l in lines[:3]] if r.returncode else []}
 json.dump({'suite_ok_debug_build': suite_ok, 'checks': res}, open(rd + '/result.json', 'w'), indent=1)
 shutil.rmtree(scratch, ignore_errors=True)
-print(name, 'suite_ok', suite_ok, 'alarms', {p: v['first'][:1] for p, v in res.items() if v['rc'] != 0})
+print(name, 'suite_ok', suite_ok, 'alarms', {p: v['first'][:1] for p, v in res.items() if v['rc'] == 1}, 'no-verdict', sorted(p for p, v in res.items() if v['rc'] not in (0, 1)))
